@@ -60,7 +60,12 @@ def f32_of_rational(q: Fraction) -> float:
 
 
 def f64_of_rational(q: Fraction) -> float:
-    return round_to_binary(q, 53, -1022, 1023)
+    """nearest double: python's int/int true division is correctly rounded (checked against
+    round_to_binary in self_test)"""
+    try:
+        return q.numerator / q.denominator
+    except OverflowError:
+        return math.inf if q > 0 else -math.inf
 
 
 def f32(x: float) -> float:
@@ -583,8 +588,10 @@ def self_test():
     assert parse('float', '1E-45') == 2.0 ** -149
     assert parse('double', '5E-324') == 5e-324 and parse('double', '1E400') == math.inf
     assert is_neg_zero(parse('double', '-0')) and is_neg_zero(parse('double', '-1E-400'))
-    for s in ('0.1', '1e21', '123456789.123456789', '2.2250738585072014E-308', '1.7976931348623157E308', '4.9e-324'):
-        assert f64_of_rational(rational_of_lexical(s)) == float(s), s
+    for s in ('0.1', '1e21', '123456789.123456789', '2.2250738585072014E-308', '1.7976931348623157E308', '4.9e-324',
+              '2.4703282292062327e-324', '2.4703282292062328e-324', '1.7976931348623158E308', '1.797693134862315807E308',
+              '9007199254740993', '0.30000000000000004', '1e-400', '1e400', '-1e400'):
+        assert f64_of_rational(rational_of_lexical(s)) == float(s) == round_to_binary(rational_of_lexical(s), 53, -1022, 1023), s
     assert sig_digits(Fraction(1, 3)) is None and sig_digits(Fraction('12.50')) == 3 and sig_digits(Fraction(1200)) == 2
     assert dec_str(Fraction('-0.0625')) == '-0.0625' and dec_str(Fraction(120)) == '120'
     # XPath 1.0 (section 3.5): 5 mod 2 = 1, 5 mod -2 = 1, -5 mod 2 = -1, -5 mod -2 = -1
